@@ -635,6 +635,22 @@ pub fn selftest() -> i32 {
         }
     }
     let viol: usize = a.results.values().filter(|r| !r.violations.is_empty()).count();
+    // fingerprints per property over (id, digest, shape, verdicts): to compare builds
+    let mut fps: BTreeMap<String, vcommon::Fnv> = BTreeMap::new();
+    for s in &scenarios {
+        if let Some(r) = a.results.get(&s.id) {
+            let f = fps.entry(s.property.clone()).or_default();
+            f.u64(r.digest);
+            f.u64(r.shape);
+            for v in &r.violations {
+                f.str(&v.oracle);
+                f.str(&v.key);
+            }
+        }
+    }
+    for (p, f) in &fps {
+        println!("fingerprint {p} = {:016x}", f.finish());
+    }
     println!(
         "selftest: {} scenarios ({} C15 + {} C12) run twice (5 workers forward in {:.1}s, {} workers backward in {:.1}s): {} with violations, {} differences, harness errors {}",
         scenarios.len(),
